@@ -38,17 +38,17 @@ type Observer interface {
 // NopObserver implements Observer with no-ops.
 type NopObserver struct{}
 
-func (NopObserver) Incarnation(*Sim, *Replica, bool)                                         {}
-func (NopObserver) StorageRebuilt(*Sim, *Replica, pb.Snapshot, pb.HardState, []pb.Entry)      {}
-func (NopObserver) Ready(*Sim, *Replica, *raft.Ready, raft.VerifPeekState)                    {}
-func (NopObserver) HandOut(*Sim, *Replica, pb.Snapshot, []pb.Entry)                           {}
-func (NopObserver) Persisted(*Sim, *Replica, []WalRec, bool)                                  {}
-func (NopObserver) Sent(*Sim, *Replica, []pb.Message)                                         {}
-func (NopObserver) ConfApplied(*Sim, *Replica, pb.Entry, pb.ConfChange, pb.ConfState)         {}
-func (NopObserver) Crashed(*Sim, *Replica, CrashPoint, []WalRec)                              {}
-func (NopObserver) RaftPanic(*Sim, *Replica, string, interface{})                             {}
-func (NopObserver) SnapshotCreated(*Sim, *Replica, pb.Snapshot, uint64)                       {}
-func (NopObserver) StepDone(*Sim, *Replica)                                                   {}
+func (NopObserver) Incarnation(*Sim, *Replica, bool)                                     {}
+func (NopObserver) StorageRebuilt(*Sim, *Replica, pb.Snapshot, pb.HardState, []pb.Entry) {}
+func (NopObserver) Ready(*Sim, *Replica, *raft.Ready, raft.VerifPeekState)               {}
+func (NopObserver) HandOut(*Sim, *Replica, pb.Snapshot, []pb.Entry)                      {}
+func (NopObserver) Persisted(*Sim, *Replica, []WalRec, bool)                             {}
+func (NopObserver) Sent(*Sim, *Replica, []pb.Message)                                    {}
+func (NopObserver) ConfApplied(*Sim, *Replica, pb.Entry, pb.ConfChange, pb.ConfState)    {}
+func (NopObserver) Crashed(*Sim, *Replica, CrashPoint, []WalRec)                         {}
+func (NopObserver) RaftPanic(*Sim, *Replica, string, interface{})                        {}
+func (NopObserver) SnapshotCreated(*Sim, *Replica, pb.Snapshot, uint64)                  {}
+func (NopObserver) StepDone(*Sim, *Replica)                                              {}
 
 func sortedMsgs(in []pb.Message) []pb.Message {
 	out := make([]pb.Message, len(in))
